@@ -107,8 +107,8 @@ let () =
           while not (done_cl s.ls.(tT)) && !k < 10000 do stept s tT; incr k done;
           let dar = ref (-1) and sar = ref "" in
           ignore (run_quiet ~stop:(fun () -> if !dar < 0 && done_cl s.ls.(tS) then (dar := nexec s; sar := states s); false) s);
-          Printf.printf "OUT GATE %s reached=%d returned_while_parked=%d states_while_parked=%s done_at_return=%d states_at_return=%s err=%d\n" id
-            (if reached then 1 else 0) (if early then 1 else 0) st_parked !dar !sar (if last_err s then 1 else 0)
+          Printf.printf "OUT GATE %s reached=%d returned_while_parked=%d states_while_parked=%s done_without_resume=%d states_at_return=%s err=%d\n" id
+            (if reached then 1 else 0) (if early then 1 else 0) st_parked (if nexec s = 1 then 1 else 0) !sar (if last_err s then 1 else 0)
         end else
         if kind = 1 then begin
           client s tS (ASuspendPU (nat_of_int last, false));
